@@ -23,6 +23,25 @@ func init() {
 		n := c.N(200, 600)
 		g.Free(n/2, g.StdDt)
 		exitAgainstCustody(c, w)
+		// governance rewrites pool parameters in mid-history: the constant-product pool 3 becomes an
+		// oracle pool for a while and goes back, pool 2 gets another swap fee
+		if v.Pool3 && !w.Dead {
+			if p3, ok := w.App.AmmKeeper.GetPool(w.ReadCtx(), 3); ok {
+				pp := p3.PoolParams
+				pp.UseOracle = true
+				if w.GovExec("pool 3 -> oracle", &ammtypes.MsgUpdatePoolParams{Authority: w.Gov, PoolId: 3, PoolParams: pp}) {
+					c.Ev("pool_switched_to_oracle_mode")
+				}
+				g.Free(12, g.StdDt)
+				pp.UseOracle = false
+				p2, _ := w.App.AmmKeeper.GetPool(w.ReadCtx(), 2)
+				q := p2.PoolParams
+				q.SwapFee = chain.Dec("0.0042")
+				if w.GovExec("pool 3 -> constant product", &ammtypes.MsgUpdatePoolParams{Authority: w.Gov, PoolId: 3, PoolParams: pp}, &ammtypes.MsgUpdatePoolParams{Authority: w.Gov, PoolId: 2, PoolParams: q}) {
+					c.Ev("pool_switched_back_to_constant_product")
+				}
+			}
+		}
 		g.Free(n-n/2, g.StdDt)
 	})
 }
